@@ -3,6 +3,7 @@ import re
 from rulelib import *
 from facts import op_int, op_local, op_place
 import C02
+import C13
 
 THOROUGH_CFGS = ('min_none', 'min_rten', 'min_onnx')   # reduced-feature builds of the rten crate (thorough tier)
 # instances whose subject does not exist in a reduced-feature build (format crates not linked, no random operators)
@@ -18,7 +19,8 @@ EXPLANATION = (
     "on the uninitialised int8 GEMV output row; loader-time RefCells); (owned-only) the executor passes operators views of "
     "constants and borrowed inputs and takes a value for in-place mutation only when it is an owned temporary with "
     "refcount 1, counters saturate and a saturated count is never decremented; (determinism) every operator that reaches a "
-    "randomness / entropy / time sink declares itself non-deterministic. Bit-identical float results under different "
+    "randomness / entropy / time sink declares itself non-deterministic; (storage-order) the census of C13.storage-order: no kernel reads an owned "
+    "tensor's raw buffer in storage order outside an is_contiguous() test, so an output cannot depend on whether an input was owned or borrowed. Bit-identical float results under different "
     "reduction orders are not decided.")
 ASSUMPTIONS = ["safe Rust aliasing guarantees (a &T cannot be written without interior mutability or unsafe)", "std/third-party crates are not inventoried"]
 LIBS = ['rten', 'rten_tensor', 'rten_gemm', 'rten_simd', 'rten_vecmath', 'rten_base', 'rten_parallel', 'rten_shape_inference', 'rten_model_file', 'rten_onnx']
@@ -34,6 +36,7 @@ def run(ctx):
     C02.views_only(ctx, fb, 'C25.views-only')
     C02.refcount_pairing(ctx, fb, 'C25.refcounts')
     determinism(ctx, fb)
+    C13.storage_order(ctx, fb, 'C25.storage-order')
 
 
 def shared_ref(ctx, fb):
